@@ -1,4 +1,5 @@
 import Mdns.Lemmas.Responder
+import Mdns.Lemmas.ResponderSched
 /-
   C07  A name is probed three times before it is announced, then announced twice.
 
@@ -27,6 +28,12 @@ import Mdns.Lemmas.Responder
     answers - by evaluation of the model under the timely scheduler for EVERY jitter `j < 250`
     on a concrete registration, and for a spread of jitters on a dual-stack interface with a
     mixed-case instance name and a subtype (`probe_lifecycle_partial`).
+  * the same schedule INSIDE the daemon loop (`probe_schedule_in_daemon`, `probe_query_in_daemon`):
+    for any daemon state - other probes, services, interfaces, queued re-runs arbitrary - with a
+    fresh probe of `n` on interface `i`, idle iterations at `T`, `T+250`, `T+500`, `T+750` and any
+    others in between send the probe query for `n` on `i` at exactly `T`, `T+250`, `T+500`
+    (every family, `ANY n`, all records as authorities) and at no other iteration, and the
+    records are active after the iteration at `T+750`;
   The statement for every service, interface and start time is `probe_lifecycle_full`.
 
   Findings kept as theorems about the model (= the code, by the correspondence):
@@ -139,6 +146,52 @@ theorem probe_end_activates_records (intfName : BList) (acc : Registry × List E
     alookup name (expireProbe intfName acc name).1.probing = none ∧
     (p.records ≠ [] → ∀ w ∈ p.waiting, w ∈ (expireProbe intfName acc name).2.2) :=
   expireProbe_activates intfName acc name p hl hn
+
+/-! ### the schedule of a probe INSIDE the daemon loop -/
+
+/-- ONE idle loop iteration (`iter` without datagram and command) of a daemon in ANY state in
+    which it runs, interface `i` is there once, and the probe of `n` on `i` has start `st`, next
+    send `nx` and holds the records `R` - other probes, services, interfaces, queued re-runs and
+    timers arbitrary.  While the probe does not end (`now < nx` or `now < st + 750`): the probe
+    query for `n` leaves on `i` in this iteration exactly if `now ≥ nx` - on every family of the
+    interface, a query packet with `ANY n` among the questions and all of `R` among the
+    authorities - and then `nx` becomes `now + 250`; otherwise the probe is as before. -/
+theorem probe_query_in_daemon (s : State) (i : MyIntf) (l1 l2 : List MyIntf) (n : BList) (st nx : Nat) (R : List RR) (now j : Nat)
+    (h : Good s i l1 l2 n st nx R) (hlive : now < nx ∨ now < st + 750) :
+    Good (iter s (idle now j)).1 i l1 l2 n st (if now ≥ nx then now + 250 else nx) R ∧
+    (now < nx → asked i.index n (iter s (idle now j)).2 = false) ∧
+    (now ≥ nx → ∀ v4, i.hasFamily v4 = true → ∃ pkt, Out.send i.index v4 none pkt ∈ (iter s (idle now j)).2 ∧
+      pkt.flags = 0 ∧ (n, TYPE_ANY) ∈ pkt.questions ∧ ∀ a ∈ R, a ∈ pkt.authorities) :=
+  iter_idle_step s i l1 l2 n st nx R now j h hlive
+
+/-- PROBE LIFE CYCLE IN THE DAEMON, timely scheduler, no conflict, for ANY state as above in
+    which the probe of `n` on interface `i` is fresh (`start = next_send = T`): over idle loop
+    iterations at exactly `T`, `T+250`, `T+500`, `T+750` and at ANY other instants in between
+    (`pre0 … pre3`), the iterations in which a probe query for `n` leaves on `i` are exactly those
+    at `T`, `T+250` and `T+500` - none before, none in between, none at `T+750` - and after the
+    iteration at `T+750` every record of the probe (filed under `n`) is active on `i`. -/
+theorem probe_schedule_in_daemon (s : State) (i : MyIntf) (l1 l2 : List MyIntf) (n : BList) (T : Nat) (R : List RR) (j : Nat)
+    (h : Good s i l1 l2 n T T R) (hfam : ∃ v4, i.hasFamily v4 = true)
+    (pre0 pre1 pre2 pre3 : List Nat)
+    (h0 : ∀ t ∈ pre0, t < T) (h1 : ∀ t ∈ pre1, t < T + 250) (h2 : ∀ t ∈ pre2, t < T + 500) (h3 : ∀ t ∈ pre3, t < T + 750) :
+    askTimes i.index n
+      (idleRun j s ((pre0 ++ [T]) ++ ((pre1 ++ [T + 250]) ++ ((pre2 ++ [T + 500]) ++ (pre3 ++ [T + 750]))))).2 =
+      [T, T + 250, T + 500] ∧
+    ∀ a ∈ R, a.getName = n →
+      ((idleRun j s ((pre0 ++ [T]) ++ ((pre1 ++ [T + 250]) ++ ((pre2 ++ [T + 500]) ++ (pre3 ++ [T + 750]))))).1.registry
+        i.index).isActive a = true := by
+  obtain ⟨g1, a1⟩ := idleRun_phase j i l1 l2 n T T R s pre0 h (by omega) hfam h0
+  obtain ⟨g2, a2⟩ := idleRun_phase j i l1 l2 n T (T + 250) R _ pre1 g1 (by omega) hfam h1
+  obtain ⟨g3, a3⟩ := idleRun_phase j i l1 l2 n T (T + 250 + 250) R _ pre2 g2 (by omega) hfam (by simpa [Nat.add_assoc] using h2)
+  obtain ⟨a4, hact⟩ := idleRun_final j i l1 l2 n T (T + 250 + 250 + 250) R _ pre3 g3 (by omega) (by simpa [Nat.add_assoc] using h3)
+  have e500 : T + 500 = T + 250 + 250 := by omega
+  have e750 : T + 750 = T + 250 + 250 + 250 := by omega
+  rw [e500, e750]
+  rw [idleRun_append, idleRun_append, idleRun_append]
+  refine ⟨?_, hact⟩
+  simp only [askTimes_append]
+  rw [a1, a2, a3, a4]
+  rfl
 
 /-! ### findings (the model mirrors the code; both agree on the witnesses in corpus/C07) -/
 
@@ -279,5 +332,41 @@ example :
 example :
     (sendsAt [(1000800, (iter (iter (init 1000000 [eth0]) { now := 1000000, jitter := 10, cmds := [.register web] }).1
         { now := 1000800, jitter := 10 }).2)]).map (fun x => x.1) = [1000800] := by decide +kernel
+
+/-! non-vacuity of `probe_schedule_in_daemon`: the state right after `register(web)` on a fresh
+    daemon (jitter 7) satisfies `Good` for the probe of the instance name, fresh at 1000007 -/
+
+def probingState : State := (iter (init 1000000 [eth0]) { now := 1000000, jitter := 7, cmds := [.register web] }).1
+
+def webTxt : RR := { name := web.fullname, ty := 16, flush := true, ttl := 4500, rdata := .txt [0] }
+def webSrv : RR := { name := web.fullname, ty := 33, flush := true, ttl := 120, rdata := .srv 0 0 80 web.host }
+def webA : RR := { name := web.host, ty := 1, flush := true, ttl := 120, rdata := .a [192, 168, 1, 20] }
+
+def probingRegistry : Registry :=
+  { probing := [(web.fullname, { records := [webTxt, webSrv], waiting := [web.fullname], start := 1000007, next := 1000007 }),
+                (web.host, { records := [webA], waiting := [web.fullname], start := 1000007, next := 1000007 })] }
+
+theorem probingState_registry : probingState.registry 2 = probingRegistry := by decide +kernel
+
+example : Good probingState eth0 [] [] web.fullname 1000007 1000007 [webTxt, webSrv] := by
+  refine ⟨by decide +kernel, ⟨by decide +kernel, by simp⟩, ⟨?_, ?_, ?_⟩, ?_⟩
+  · exact ⟨{ records := [webTxt, webSrv], waiting := [web.fullname], start := 1000007, next := 1000007 },
+      by rw [show eth0.index = 2 from rfl, probingState_registry]; decide, rfl, rfl, fun a h => h⟩
+  · rw [show eth0.index = 2 from rfl, probingState_registry]
+    unfold KeysNodup
+    decide
+  · rw [show eth0.index = 2 from rfl, probingState_registry]
+    refine ⟨rfl, ?_⟩
+    intro n p hm a ha
+    simp only [probingRegistry, List.mem_cons, Prod.mk.injEq, List.not_mem_nil, or_false] at hm
+    rcases hm with ⟨_, rfl⟩ | ⟨_, rfl⟩
+    · simp only [List.mem_cons, List.not_mem_nil, or_false] at ha
+      rcases ha with rfl | rfl <;> rfl
+    · simp only [List.mem_cons, List.not_mem_nil, or_false] at ha
+      subst ha; rfl
+  · intro t p k v hm
+    have : probingState.reruns = [] := by decide +kernel
+    rw [this] at hm
+    cases hm
 
 end Mdns.Props.C07
